@@ -555,10 +555,11 @@ def interpolate_ntv2(grid_object, lat, lon, method='bicubic'):
                     inc = grid_object.subgrids[sg].lat_inc
                     in_grid = grid_object.subgrids[sg]
 
-    # Determine number of columns in grid, and row and column of node to bottom right of
+    # Determine number of rows and columns in grid, and row and column of node to bottom right of
     # point of interest, then call relevant interpolation method function
 
-    # determine number of columns
+    # determine number of rows and columns
+    num_rows = 1 + int(round((in_grid.n_lat - in_grid.s_lat) / in_grid.lat_inc))
     num_cols = 1 + int(round((in_grid.w_long - in_grid.e_long) / in_grid.long_inc))
 
     # determine row and col numbers of node below right of point
@@ -576,7 +577,12 @@ def interpolate_ntv2(grid_object, lat, lon, method='bicubic'):
                 if method == 'bilinear':
                     results = in_grid.ntv2_bilinear(lat, lon, num_cols, row, col, f, skip_bytes)
                 elif method == 'bicubic':
-                    results = in_grid.ntv2_bicubic(lat, lon, num_cols, row, col, f, skip_bytes)
+                    # the 16 node stencil needs a node on every side of the cell: in the outermost ring of
+                    # cells it would leave the subgrid, so use the four enclosing nodes there
+                    if 1 <= row <= num_rows - 3 and 1 <= col <= num_cols - 3:
+                        results = in_grid.ntv2_bicubic(lat, lon, num_cols, row, col, f, skip_bytes)
+                    else:
+                        results = in_grid.ntv2_bilinear(lat, lon, num_cols, row, col, f, skip_bytes)
             else:
                 skip_bytes += sg.gs_count * 16
 
